@@ -113,8 +113,17 @@ def case_axis(rng):
         for i in rng.choice(n, size=min(k, n), replace=False):
             sl = [slice(None)] * rank
             sl[axis] = int(i)
-            if rank == 1 or rng.uniform() < 1.0:
+            if rank == 1 or rng.uniform() < 0.6:
                 vals[tuple(sl)] = np.nan
+            else:
+                # only part of the node's slab is missing: the node counts as missing as a whole (the node-level
+                # rule of nd_interp), so the valid neighbour's value is returned when it carries more than half
+                slab = vals[tuple(sl)]
+                mask = rng.uniform(0, 1, slab.shape) < 0.4
+                if not mask.any():
+                    mask.flat[int(rng.integers(0, mask.size))] = True
+                slab[mask] = np.nan
+                vals[tuple(sl)] = slab
     targets = make_targets(rng, xp, kind)
     if dyadic:
         # targets on the 1/8 lattice, mid points of power-of-two-wide bins included
